@@ -11,7 +11,9 @@ Spells == {"plain", "backslash", "searchpath"}
 (* where the first foreign call runs: in the module function, inside a bytecode function called from it, or as the last
    instruction before `ret` of such a function (its result / error then crosses a bytecode call boundary); what the program
    prints does not depend on it *)
-Wheres == {"module", "fn", "tail", "module_tail"}
+\* fn_args / tail_args: the bytecode function that makes the foreign call was itself called with two arguments (which it never
+\* touches): the foreign function still receives the operand stack of the call site - the empty slice when nothing was pushed
+Wheres == {"module", "fn", "tail", "module_tail", "fn_args", "tail_args"}
 Init == args = <<>> /\ call = "" /\ call2 = "" /\ args2 = <<>> /\ spell = "plain" /\ where = "module" /\ done = FALSE
 Next == \/ (~done /\ Len(args) < MaxLen /\ \E v \in ValIdx : args' = Append(args, v) /\ UNCHANGED <<call, call2, args2, spell, where, done>>)
         \/ (~done /\ \E f \in Calls, sp \in Spells, w \in Wheres : call' = f /\ spell' = sp /\ where' = w /\ done' = TRUE /\ UNCHANGED <<args, call2, args2>>)
